@@ -118,15 +118,36 @@ Definition spec_state (M : Q -> Q) (evs : list ev) : Q * Q := fold_left (spec_st
 Definition spec_k (M : Q -> Q) (evs : list ev) (t : Q) : Q :=
   let s := spec_state M evs in snd s + (M t - M (fst s)).
 
+(* ---- the same recurrence as the code organises it: one pass over the pulses builds the table of
+   (period start, dk of that period); a time t then takes the dk of the last period starting at or
+   before t (405-429: k_traj[:, i_period:i_period_end] += dk).  Proofs/KSpaceProofs.v shows
+   k_tab = k_at for time-sorted pulses. *)
+Fixpoint dk_scan (M : Q -> Q) (dk : Q) (evs : list ev) : list (Q * Q) :=
+  match evs with
+  | [] => []
+  | e :: r => let dk' := upd M dk e in (fst e, dk') :: dk_scan M dk' r
+  end.
+Fixpoint dk_lookup (tbl : list (Q * Q)) (dk : Q) (t : Q) : Q :=
+  match tbl with
+  | [] => dk
+  | (te, dk') :: r => if Qle_bool te t then dk_lookup r dk' t else dk
+  end.
+Definition k_tab (M : Q -> Q) (evs : list ev) (t : Q) : Q :=
+  M t + dk_lookup (dk_scan M (- M 0) evs) (- M 0) t.
+
 (* ---- whole pipeline for the correspondence ------------------------------------------------ *)
 Definition wave_or_nil (r : wres) : pwl := match r with WOk w => w | _ => [] end.
 
 Definition kspace_adc (raster : Q) (bs : list kblock) (ch : nat) : list Q :=
   let w := wave_or_nil (waveform raster (map kb bs) ch) in
   let evs := rf_events 0 bs in
-  map (k_at (moment w) evs) (adc_times 0 bs).
+  let dk0 := - moment w 0 in
+  let tbl := dk_scan (moment w) dk0 evs in
+  map (fun t => moment w t + dk_lookup tbl dk0 t) (adc_times 0 bs).
 
 Definition kspace_at (raster : Q) (bs : list kblock) (ch : nat) (ts : list Q) : list Q :=
   let w := wave_or_nil (waveform raster (map kb bs) ch) in
   let evs := rf_events 0 bs in
-  map (k_at (moment w) evs) ts.
+  let dk0 := - moment w 0 in
+  let tbl := dk_scan (moment w) dk0 evs in
+  map (fun t => moment w t + dk_lookup tbl dk0 t) ts.
